@@ -111,9 +111,9 @@ theorem canonical_channel_recorded_once (s : St) (op : Op) (r : Nat) (ra : Ra) (
 /-- a top-level `MsgChannelOpenAck` for a second channel is refused when a canonical channel is recorded
     (the channel identifier is spent, nothing else changes) -/
 theorem chopen_ack_refused_when_recorded {s : St} {r : Nat} {ra : Ra} (hg : getRa s r = some ra)
-    (hl : ra.linked = true) (hc : ra.chan.isSome = true) :
+    (hl : ra.linked = true) (hf : ra.frozen = false) (hc : ra.chan.isSome = true) :
     step s (.chopen r 0) = ({ s with nextChan := s.nextChan + 1 }, .err) := by
-  simp [step, stepChopen, hg, hl, hc]
+  simp [step, stepChopen, hg, hl, hf, hc]
 
 -- ------------------------------------------------------------------------------------------------ monotonicity
 
